@@ -63,6 +63,9 @@ func init() {
 		c.st.assume(fmt.Sprintf("(=> (= %s 0) (= %s (sdec %s)))", e.T, v.T, s.T))
 		// consequences of the two facts above, stated to spare the solver the string reasoning
 		c.st.assume(fmt.Sprintf("(=> (= %s 0) (and (=> (not (= (str.at %s 0) \"-\")) (>= %s 0)) (=> (= (str.at %s 0) \"-\") (<= %s 0))))", e.T, s.T, v.T, s.T, v.T))
+		// an all-digit string of at most 18 digits always fits (10^18 < 2^63): stated directly, it is a
+		// consequence of the first fact that string solvers take tens of seconds to find
+		c.st.assume(fmt.Sprintf("(=> (and (isDigits %s) (<= (str.len %s) 18)) (= %s 0))", s.T, s.T, e.T))
 		return c.tuple(v, e)
 	})
 	ext("strings.ToLower", "ToLower(s) == lower(s) (ASCII model: idempotent, length preserving)", func(c *ExtCtx) Val {
